@@ -31,7 +31,7 @@ func setupRig(c *fakeCAS, mat *materialized, cfg worldConfig, merge bool) (*rig,
 		cur := r.root
 		for _, name := range pth {
 			n := &mnode{kind: kindDir, tmpl: -1, expanded: true, visited: true, children: map[string]*mnode{}}
-			cur.children[name] = n
+			r.put(cur, name, n)
 			cur = n
 		}
 		if merge {
@@ -47,7 +47,7 @@ func countUnexpanded(r *rig) (unexpanded, expanded int) {
 	var walk func(n *mnode)
 	walk = func(n *mnode) {
 		for _, name := range n.names() {
-			c := n.children[name]
+			c := r.get(n, name)
 			if c.kind != kindDir {
 				continue
 			}
@@ -95,6 +95,12 @@ func TestC17InputRootModel(t *testing.T) {
 	rapid.Check(t, func(rt *rapid.T) {
 		cfg := drawWorldConfig(rt)
 		spec := drawDAG(rt)
+		if cfg.CaseInsensitive {
+			// Names differing only by case are malformed input on a case
+			// insensitive mount; that is the business of
+			// TestC17MalformedAndFaults. Here the tree is well formed.
+			spec.decollide()
+		}
 		c := newFakeCAS()
 		mat := materialize(c, spec)
 		before := c.snapshot()
@@ -170,6 +176,7 @@ func TestC17InputRootModel(t *testing.T) {
 		add(!cfg.NFS, "fuse_handles")
 		add(cfg.Actions > 1, "two_actions")
 		add(cfg.Cache == "none", "uncached_fetcher")
+		add(cfg.CaseInsensitive, "case_insensitive")
 		rec.Case(script, shared && partialAtEnd && r.mods > 0, labels...)
 	})
 }
